@@ -140,6 +140,7 @@ func c13SuccessiveClients(c *h.Ctx) {
 				eff = c13dAll
 			}
 			cj := map[string]any{"leg": "successive-clients", "first_server": fmt.Sprint(first), "client_versions": fmt.Sprint(cfg)}
+			c.Current(cj)
 			c.Eval(fmt.Sprintf("successive-clients/%d/%d", fi, ci), true)
 			c.Count("leg:successive-clients")
 			for round, adv := range [][]kmip.ProtocolVersion{first, c13dAll, first, c13dAll} {
@@ -169,6 +170,7 @@ func c13DroppedDuringDiscovery(c *h.Ctx) {
 	for drops := int32(1); drops <= 5; drops++ {
 		for _, mode := range []string{"closed-after-request", "closed-at-once"} {
 			cj := map[string]any{"leg": "dropped-during-discovery", "drops": drops, "mode": mode}
+			c.Current(cj)
 			d, n, wg := c13dDialer(c13dAll, func(k int32) (bool, bool, bool, bool) {
 				return false, k <= drops && mode == "closed-after-request", false, k <= drops && mode == "closed-at-once"
 			})
@@ -192,6 +194,7 @@ func c13DroppedDuringDiscovery(c *h.Ctx) {
 func c11NegotiationFaultThenUnreachable(c *h.Ctx) {
 	for _, point := range []string{"closed-at-once", "closed-after-request", "closed-mid-reply"} {
 		cj := map[string]any{"leg": "negotiation-fault-then-unreachable", "point": point}
+		c.Current(cj)
 		r0, w0 := clisim.ClientGoroutines()
 		d, n, wg := c13dDialer(c13dAll, func(k int32) (bool, bool, bool, bool) {
 			if k > 1 {
